@@ -603,6 +603,42 @@ class C06(Monitor):
 
     PROP = "C06"
 
+    def __init__(self, world):
+        super().__init__(world)
+        self.must_not_start = set()  # named in an accepted cancel() before their first step
+        self.must_see = {}  # named in an accepted cancel() while suspended: key -> CancelledErrors seen before
+
+    def __canon__(self):
+        return (sorted(self.must_not_start), sorted(self.must_see.items()))
+
+    def after_op(self, i, op, out):
+        # cancel() calls made by the scenario itself (not the terminal probe): a call that returned without error has
+        # cancelled every task it named
+        w = self.w
+        name, pos, opts = split_op(op)
+        if name != "cancel" or out[0] != "ok":
+            return
+        p = opts.get("p", 0)
+        for t in out[1]:
+            k = (p, t)
+            if k not in w.started:
+                self.must_not_start.add(k)
+            elif k not in w.exited:
+                cur = asyncio.current_task()
+                if cur is not None and cur.get_name() == f"{w.pools[p]}_Task-{t}":
+                    continue  # issued by that very worker from its own code: it is running, not suspended
+                self.must_see.setdefault(k, w.cancel_seen[k])
+
+    def sample(self, kind, key, tag):
+        if kind == "w_start" and key in self.must_not_start:
+            self.v("a task named in a cancel() that returned without error before the task's first step ran its body anyway", key)
+
+    def quiet_idle(self):
+        w = self.w
+        for k, seen0 in self.must_see.items():
+            if k not in w.exited and w.cancel_seen[k] <= seen0:
+                self.v("a suspended task named in a cancel() that returned without error never observed a CancelledError", k)
+
     def probe_cancel(self, p, maxlen=2):
         w = self.w
         pool = w.pools[p]
@@ -1013,9 +1049,9 @@ class C11(Monitor):
     def __init__(self, world):
         super().__init__(world)
         self.next = [0] * len(world.pools)
-        names = [str(p) for p in world.pools]
+        names = [str(pl) for p, pl in enumerate(world.pools) if p not in world.named_pools]
         if len(set(names)) != len(names):
-            self.v("two pools have the same name", names)
+            self.v("two unnamed pools have the same name", names)
 
     def __canon__(self):
         return tuple(self.next)
@@ -1024,9 +1060,9 @@ class C11(Monitor):
         w = self.w
         if len(self.next) < len(w.pools):
             self.next += [0] * (len(w.pools) - len(self.next))
-        names = [str(w.pools[p]) for p in pools_of(w) if p not in w.closed_pools]
+        names = [str(w.pools[p]) for p in pools_of(w) if p not in w.closed_pools and p not in w.named_pools]
         if len(set(names)) != len(names):
-            self.v("two pools in use have the same name", names)
+            self.v("two unnamed pools in use have the same name", names)
         if w.bad_names:
             self.v("task name not of the form <pool>_Task-<id>", w.bad_names[0])
         if w.dup_keys:
